@@ -139,6 +139,41 @@ theorem entity_sub_single (els : List Chain) (root name : Str) (t : Chain)
   unfold entitySub
   simp only [List.length_cons, insertXpaths, hm, ht, List.append_nil, Option.getD_some, List.cons_append, List.nil_append]
 
+theorem insertXpaths_verbatim (els : List Chain) (ctx : Chain) : ∀ (s : Str) (f : Nat), '$' ∉ s → s.length < f →
+    insertXpaths els ctx f s = some s
+  | [], f, _, hf => by
+    cases f with
+    | zero => cases hf
+    | succ f => rfl
+  | c :: r, f, h, hf => by
+    cases f with
+    | zero => cases hf
+    | succ f =>
+      have hc : c ≠ '$' := fun e => h (by simp [e])
+      have ih := insertXpaths_verbatim els ctx r f (fun hm => h (by simp [hm])) (by simpa using hf)
+      unfold insertXpaths
+      split
+      · rename_i heq; cases heq
+      · rename_i heq; cases heq
+      · rename_i heq; injection heq with h1 _; exact absurd h1 hc
+      · rename_i f' c' r' _ hfe heq
+        injection heq with h1 h2
+        injection hfe with hfe
+        subst h1; subst h2; subst hfe
+        rw [ih]; rfl
+
+/-- **entity_sub_verbatim.**  An entity cell without `$` — whatever else it contains: `%`, `%s`, `{0}`, braces,
+    backslashes, quotes, markup characters — is emitted unchanged by the declaration's substitution, for every
+    form.  (With `entity_table_refs`: the version binds then hold literally
+    `instance('<dataset>')/root/item[name=<cell>]/__version` etc.: no formatting is applied to the cell.) -/
+theorem entity_sub_verbatim (els : List Chain) (root : Str) (s : Str) (h : '$' ∉ s) : entitySub els root s = s := by
+  unfold entitySub
+  rw [insertXpaths_verbatim els _ s _ h (by omega)]
+  rfl
+
+example : entitySub [] "data".toList "translate(x, '%20', '{0}\\')".toList = "translate(x, '%20', '{0}\\')".toList :=
+  entity_sub_verbatim _ _ _ (by decide)
+
 /-- `entity_table` with the substitution instantiated: the calculate expressions of the declaration's binds
     are the cells with every reference replaced per C03's model (`entitySub` = regex ∘ `Refs.refFor` with the
     declaration as context element, proved context-free by `entity_ref_absolute`) -/
